@@ -26,7 +26,7 @@ void __asan_unpoison_memory_region(void const volatile* addr, size_t size);
 #define UNPOISON(p, n) ((void)0)
 #endif
 
-struct Cell { var child; int64_t id; int64_t owner; uint64_t canary; };
+struct Cell { var child; int64_t id; int64_t owner; uint64_t canary; var child2; int64_t owner2; };
 #define CANARY 0xC0FFEE11C0FFEE11ULL
 
 #define MAXA 10
@@ -110,7 +110,7 @@ static void Cell_Dealloc(var self) {
 static void Cell_New(var self, var args) {
   struct Cell* c = self;
   int s = slot_of(self);
-  c->id = s; c->child = NULL; c->owner = 0; c->canary = CANARY;
+  c->id = s; c->child = NULL; c->owner = 0; c->canary = CANARY; c->child2 = NULL; c->owner2 = 0;
   if (s >= 0) S[s].constructed = 1;
 }
 
@@ -127,6 +127,11 @@ static void Cell_Del(var self) {
     if (cs >= 0) S[cs].deleted = 1;
     del(c->child);
     if (cs >= 0 && stopped && S[cs].fin == 0) owner_del_ignored = 1;
+  }
+  if (c->owner2 && c->child2) {
+    int cs = slot_of(c->child2);
+    if (cs >= 0) S[cs].deleted = 1;
+    del(c->child2);
   }
 }
 
@@ -526,7 +531,7 @@ static int nontrivial(void) {
 /* ---- ladder: registry sizes 53 .. 389 --------------------------------------------- */
 
 #define LADN 300
-struct LCell { var child; int64_t id; int64_t owner; uint64_t canary; };
+struct LCell { var child; int64_t id; int64_t owner; uint64_t canary; var child2; int64_t owner2; };
 static char* lad_base;
 static var LP(int i, int stride_words) { return lad_base + 8L * stride_words * i + 24; }
 static int lad_stride, lad_alloc_i = -1;
@@ -618,6 +623,94 @@ static void ladder(void) {
   vf.states = vf.nontrivial ? vf.nontrivial : 1;
 }
 
+/* ---- ownership graphs: every graph of owning pointers on n objects (two owning slots each), cycles included ---------
+** All objects are garbage (or one is deleted explicitly); whatever order the sweep or the re-entrant deletes take,
+** every object must be finalised exactly once and released exactly once.  In contract: an object with several owners
+** is owned only from inside its own ownership cycle (every owner is reachable from it through owning pointers), and the
+** program itself deletes only an object that has no owner outside its own cycle. */
+
+static int og_reach(int n, int tgt[][2], int from, int to) {
+  int seen[8] = {0}, stack[8], sp = 0; stack[sp++] = from; seen[from] = 1;
+  while (sp) { int x = stack[--sp]; for (int k = 0; k < 2; k++) { int y = tgt[x][k]; if (y < 0) continue; if (y == to) return 1; if (!seen[y]) { seen[y] = 1; stack[sp++] = y; } } }
+  return 0;
+}
+
+static void own_graphs(void) {
+  vf.phase = "gc-owngraph";
+  int n = (int)vf_param_i("n", 3);
+  { int rn; if (vf.replay && sscanf(vf.replay, "own n=%d", &rn) == 1) n = rn; }
+  if (n > 4) n = 4;
+  propC06 = 1;
+  int nt = n + 1;                        /* per slot: none or one of n targets */
+  uint64_t ngraphs = 1; for (int i = 0; i < 2 * n; i++) ngraphs *= (uint64_t)nt;
+  int perms[24][4]; int np = 0;
+  { int p[4] = {0,1,2,3}; /* all permutations of the first n addresses */
+    int c[4] = {0,0,0,0}; memcpy(perms[np++], p, sizeof p);
+    int i = 0; while (i < n) { if (c[i] < i) { int a = (i % 2 == 0) ? 0 : c[i]; int t = p[a]; p[a] = p[i]; p[i] = t; memcpy(perms[np++], p, sizeof p); c[i]++; i = 0; } else { c[i] = 0; i++; } } }
+  A = n < 4 ? 4 : n;
+  unsigned long long r_g = 0; int r_n = 0, r_trig = -1, r_perm = -1;
+  int replaying = vf.replay && sscanf(vf.replay, "own n=%d g=%llu trig=%d perm=%d", &r_n, &r_g, &r_trig, &r_perm) == 4;
+  for (uint64_t g = 0; g < ngraphs; g++) {
+    if (replaying && g != r_g) continue;
+    int tgt[4][2]; uint64_t x = g;
+    for (int i = 0; i < n; i++) for (int k = 0; k < 2; k++) { tgt[i][k] = (int)(x % (uint64_t)nt) - 1; x /= (uint64_t)nt; }
+    /* canonical: slot 2 only used when slot 1 is; no duplicate target in the two slots */
+    int ok = 1;
+    for (int i = 0; i < n && ok; i++) { if (tgt[i][0] < 0 && tgt[i][1] >= 0) ok = 0; if (tgt[i][0] >= 0 && tgt[i][0] == tgt[i][1]) ok = 0; }
+    /* several owners only from inside the object's own ownership cycle */
+    for (int t = 0; t < n && ok; t++) {
+      int owners[8], no = 0;
+      for (int i = 0; i < n; i++) for (int k = 0; k < 2; k++) if (tgt[i][k] == t) owners[no++] = i;
+      if (no > 1) for (int q = 0; q < no; q++) if (owners[q] != t && !og_reach(n, tgt, t, owners[q])) ok = 0;
+    }
+    if (!ok) continue;
+    vf.states++;
+    if ((g & 255) == 0) { vf_watchdog(120); if (vf_deadline_hit()) break; }
+    int cyclic = 0; for (int i = 0; i < n; i++) if (og_reach(n, tgt, i, i)) cyclic = 1;
+    for (int trig = 0; trig < 2 + n; trig++) {
+      if (trig >= 2) {            /* explicit del(node): in contract only if every owner of it sits in its own cycle */
+        int d = trig - 2, okd = 1;
+        for (int i = 0; i < n; i++) for (int k = 0; k < 2; k++) if (tgt[i][k] == d && i != d && !og_reach(n, tgt, d, i)) okd = 0;
+        if (!okd) continue;
+      }
+      for (int pi = 0; pi < np; pi++) {
+        if (replaying && (trig != r_trig || pi != r_perm)) continue;
+        char gs[96]; size_t o = 0;
+        for (int i = 0; i < n; i++) o += snprintf(gs + o, sizeof gs - o, "%s#%d->{%c%c}", i ? " " : "", i, tgt[i][0] < 0 ? '-' : '0' + tgt[i][0], tgt[i][1] < 0 ? '-' : '0' + tgt[i][1]);
+        static const char* tn[] = { "forced-collection", "teardown-only", "del(#0)", "del(#1)", "del(#2)", "del(#3)" };
+        vf_set_cur("own n=%d g=%" PRIu64 " trig=%d perm=%d | owning pointers %s; addresses %d%d%d%d; %s", n, g, trig, pi, gs, perms[pi][0], perms[pi][1], perms[pi][2], perms[pi][3], tn[trig]);
+        reset();
+        static char lk[64]; snprintf(lk, sizeof lk, "own-graph/%s/%s", cyclic ? "cyclic" : "acyclic", trig == 0 ? "forced-collection" : trig == 1 ? "teardown" : "explicit-del");
+        lastkind = lk;
+        int bad = 0;
+        volatile var hold[4] = { NULL, NULL, NULL, NULL };   /* the program holds its objects while it builds the graph */
+        for (int i = 0; i < n && !bad; i++) { if (do_new(perms[pi][i], K_STD) != VF_OK) bad = 1; hold[i] = P(perms[pi][i]); }
+        for (int i = 0; i < n && !bad; i++) {
+          struct Cell* c = P(perms[pi][i]);
+          if (tgt[i][0] >= 0) { c->child = P(perms[pi][tgt[i][0]]); c->owner = 1; }
+          if (tgt[i][1] >= 0) { c->child2 = P(perms[pi][tgt[i][1]]); c->owner2 = 1; }
+        }
+        lastkind = lk;
+        for (int i = 0; i < 4; i++) hold[i] = NULL;
+        if (!bad) {
+          var e = NULL;
+          if (trig == 0) e = VF_CATCH(collect_tight());
+          else if (trig >= 2) { int s = perms[pi][trig - 2]; S[s].deleted = 1; e = VF_CATCH(del(P(s))); }
+          if (e) { vf_violation(L("raises"), NULL, "raised %s", vf_exc_name(e)); bad = 1; }
+        }
+        if (bad) exec_bad = 1;
+        /* anything the trigger did not reach is garbage for the teardown sweep; cleanup() checks exactly-once for all */
+        for (int s = 0; s < NSLOT; s++) if (S[s].kind == K_STD && S[s].fin == 0 && !S[s].deleted) { /* still registered: fine */ }
+        /* teardown judges slots by S[].kind: keep kinds until then (no sync) */
+        cleanup();
+        vf.executions++; vf.transitions++;
+        if (cyclic) vf.nontrivial++;
+        if (vf_want_sample()) vf_sample("%s", vf_cur);
+      }
+    }
+  }
+}
+
 int main(int argc, char** argv) {
   vf_init(argc, argv);
   var bottom_marker = NULL;
@@ -638,6 +731,7 @@ int main(int argc, char** argv) {
   arena_base = (char*)(w << 3);
 
   if (vf_param_is("mode", "ladder", "bfs")) { ladder(); vf_finish(); }
+  if (vf_param_is("mode", "own", "bfs")) { own_graphs(); vf_finish(); }
 
   static char dname[64];
   snprintf(dname, sizeof dname, "gc[%d addresses,%s]", A, propC06 ? "C06" : "C17");
